@@ -71,6 +71,18 @@ Proof.
   destruct (dec_steps p1 (enc_steps p2 ws2)) as [[? [|? ?]]|]; discriminate.
 Qed.
 
+(* cutting an item anywhere before its last byte leaves bytes that do not decode at its type: no strict prefix of an
+   encoding is itself decodable (so a truncated item is never mistaken for a shorter complete one) *)
+Theorem enc_strict_prefix_undecodable : forall t v p q,
+  has_type t v = true -> enc t v = p ++ q -> q <> [] -> dec t p = None.
+Proof.
+  intros t v p q Hv H Hq.
+  destruct (dec t p) as [[v' r']|] eqn:D; [|reflexivity].
+  apply (dec_ext t p v' r' q) in D. rewrite <- H in D.
+  pose proof (dec_enc t v [] Hv) as R. rewrite app_nil_r in R. rewrite R in D.
+  inversion D as [[Ev Er]]. symmetry in Er. apply app_eq_nil in Er. destruct Er as [_ Er]. contradiction.
+Qed.
+
 Example enc_inj_hyp_sat :
   has_type (TVec (TPrim PInt32)) (VSeq [VInt 1; VInt (-2)]) = true /\
   has_type (TVec (TPrim PInt32)) (VSeq [VInt 1]) = true /\
@@ -79,5 +91,6 @@ Proof. repeat split; vm_compute; try reflexivity. discriminate. Qed.
 
 Print Assumptions enc_prefix_free.
 Print Assumptions enc_items_inj.
+Print Assumptions enc_strict_prefix_undecodable.
 Print Assumptions enc_protocol_inj.
 Print Assumptions enc_protocol_schema_inj.
